@@ -29,6 +29,19 @@ func ruleHeader(c *Ctx) {
 	var seq []string
 	started := false
 	pendingVar := ""
+	var pendingBuf, pendingN types.Object // scratch buffer and length variable of the last PutUvarint
+	rootObj := func(e ast.Expr) types.Object {
+		for {
+			switch v := ast.Unparen(e).(type) {
+			case *ast.SliceExpr:
+				e = v.X
+				continue
+			case *ast.Ident:
+				return p.ObjOf(v)
+			}
+			return nil
+		}
+	}
 	for _, st := range w.Body.List {
 		if es, ok := st.(*ast.ExprStmt); ok {
 			if call, ok := es.X.(*ast.CallExpr); ok && strings.HasSuffix(p.CalleeName(call), "sync.WaitGroup).Wait") {
@@ -50,17 +63,29 @@ func ruleHeader(c *Ctx) {
 		switch p.CalleeName(call) {
 		case "encoding/binary.PutUvarint":
 			if len(call.Args) == 2 {
-				pendingVar = nospace(p.Str(call.Args[1]))
+				pendingVar = nospace(p.Str(ast.Unparen(call.Args[1])))
+				pendingBuf = rootObj(call.Args[0])
+				pendingN = nil
+				if id, ok := as.Lhs[0].(*ast.Ident); ok {
+					pendingN = p.ObjOf(id)
+				}
 			}
 		case "append":
 			if p.Str(as.Lhs[0]) != "dst" || len(call.Args) != 2 {
 				continue
 			}
 			a := nospace(p.Str(call.Args[1]))
+			// the varint just encoded: a slice of the scratch buffer up to the returned length
+			isVarint := false
+			if sl, ok := ast.Unparen(call.Args[1]).(*ast.SliceExpr); ok && sl.Low == nil && sl.High != nil && pendingBuf != nil && rootObj(sl.X) == pendingBuf {
+				if hid, ok := ast.Unparen(sl.High).(*ast.Ident); ok && p.ObjOf(hid) == pendingN && pendingN != nil {
+					isVarint = true
+				}
+			}
 			switch {
-			case strings.HasPrefix(a, "tmp[:"):
+			case isVarint:
 				seq = append(seq, "uvarint:"+pendingVar)
-				pendingVar = ""
+				pendingVar, pendingBuf, pendingN = "", nil, nil
 			case call.Ellipsis.IsValid():
 				seq = append(seq, "raw:"+a)
 			default:
@@ -92,7 +117,7 @@ func ruleHeader(c *Ctx) {
 	okTot := false
 	ast.Inspect(w.Body, func(n ast.Node) bool {
 		if call, ok := n.(*ast.CallExpr); ok && p.CalleeName(call) == "encoding/binary.PutUvarint" && len(call.Args) == 2 {
-			s := nospace(p.Str(call.Args[1]))
+			s := nospace(p.Str(ast.Unparen(call.Args[1])))
 			if s == "uint64(1+len(s.sMsg)+len(s.tagsCompBuf)+len(s.valuesCompBuf)+varInts)" {
 				okTot = true
 			}
